@@ -333,6 +333,110 @@ def pnmScanRow (data : Bytes) (info : PnmInfo) (pos : Nat) : Bytes :=
   let sl := pnmScanline info.type info.width
   readAt data (pos * sl) sl
 
+/-! ## scanline_read_iterator driven by a skip / dereference pattern (io/scanline_read_iterator.hpp)
+
+  `increment`: `if (skip_scanline_) reader_.skip(buffer, pos_); ++pos_; skip_scanline_ = read_scanline_ = true`
+  `dereference`: `if (read_scanline_) reader_.read(buffer, pos_); skip_scanline_ = read_scanline_ = false; return buffer` -/
+
+inductive ItOp where
+  | deref | incr
+  deriving DecidableEq, Repr
+
+/-- a scanline reader over a stream state `σ` producing rows `ρ`: `read(buffer, pos)` and `skip(buffer, pos)` -/
+structure ScanReader (σ ρ : Type) where
+  read : Nat → σ → ρ × σ
+  skip : Nat → σ → σ
+
+structure ItState (σ ρ : Type) where
+  pos : Nat
+  readF : Bool      -- read_scanline_
+  skipF : Bool      -- skip_scanline_
+  buf : ρ
+  st : σ
+
+def ItState.init {σ ρ} (b0 : ρ) (s0 : σ) : ItState σ ρ := ⟨0, true, true, b0, s0⟩
+
+/-- one iterator operation; a dereference reports (position, row buffer) -/
+def ItState.step {σ ρ} (r : ScanReader σ ρ) (s : ItState σ ρ) : ItOp → ItState σ ρ × Option (Nat × ρ)
+  | .incr => (⟨s.pos + 1, true, true, s.buf, if s.skipF then r.skip s.pos s.st else s.st⟩, none)
+  | .deref =>
+    let bs := if s.readF then r.read s.pos s.st else (s.buf, s.st)
+    (⟨s.pos, false, false, bs.1, bs.2⟩, some (s.pos, bs.1))
+
+/-- every (position, row) the iterator hands out while the operations are performed -/
+def itRun {σ ρ} (r : ScanReader σ ρ) : ItState σ ρ → List ItOp → List (Nat × ρ)
+  | _, [] => []
+  | s, o :: os =>
+    match (s.step r o).2 with
+    | some x => x :: itRun r (s.step r o).1 os
+    | none => itRun r (s.step r o).1 os
+
+/-- final position (compared with `end()`, whose position is the height) -/
+def itPos {σ ρ} (r : ScanReader σ ρ) : ItState σ ρ → List ItOp → Nat
+  | s, [] => s.pos
+  | s, o :: os => itPos r (s.step r o).1 os
+
+/-- the positions at which a sequence of operations dereferences -/
+def derefPositions : Nat → List ItOp → List Nat
+  | _, [] => []
+  | p, .incr :: os => derefPositions (p + 1) os
+  | p, .deref :: os => p :: derefPositions p os
+
+/-- the harness's pattern letters: d = `*it; ++it`, D = `*it; *it; ++it`, s = `++it` -/
+def patternOps : List Char → List ItOp
+  | [] => []
+  | 'd' :: r => .deref :: .incr :: patternOps r
+  | 'D' :: r => .deref :: .deref :: .incr :: patternOps r
+  | _ :: r => .incr :: patternOps r
+
+/-- pnm scanline_reader, binary rows: `read` takes `_scanline_length` bytes at the stream position, `skip_binary_row` seeks forward by it -/
+def pnmBinScanReader (sl : Nat) : ScanReader Bytes Bytes :=
+  { read := fun _ s => (s.take sl, s.drop sl), skip := fun _ s => s.drop sl }
+
+/-- one number of read_text_row / skip_text_row's inner loop: white space is passed over, digits are collected, the terminating
+    character is consumed; `none`: end of data or another character (read_text_row: io_error, skip_text_row: return) -/
+def pnmNextTok (bs : Bytes) : Option (Nat × Bytes) :=
+  match bs.dropWhile isWs with
+  | [] => none
+  | c :: r =>
+    if isDigit c then some (foldDigitsN ((c :: r).takeWhile isDigit), ((c :: r).dropWhile isDigit).drop 1)
+    else none
+
+/-- scanline_reader<pnm>::read_text_row: `n = _scanline_length` numbers from the stream position -/
+def pnmTextRow : Nat → Bytes → List Nat × Bytes
+  | 0, bs => ([], bs)
+  | n + 1, bs =>
+    match pnmNextTok bs with
+    | none => ([], [])
+    | some (v, rest) => (v :: (pnmTextRow n rest).1, (pnmTextRow n rest).2)
+
+/-- scanline_reader<pnm>::skip_text_row: `n` numbers are passed over (`n = _scanline_length` in the code) -/
+def pnmSkipTextRow : Nat → Bytes → Bytes
+  | 0, bs => bs
+  | n + 1, bs =>
+    match pnmNextTok bs with
+    | none => []
+    | some (_, rest) => pnmSkipTextRow n rest
+
+/-- the stream after `k` ascii rows of `sl` samples have been read -/
+def pnmTextAfter (sl : Nat) : Nat → Bytes → Bytes
+  | 0, bs => bs
+  | k + 1, bs => pnmTextAfter sl k (pnmTextRow sl bs).2
+
+/-- pnm scanline_reader, ascii rows (P1 / P2 / P3): the row buffer holds `pnmTextSample` of every number -/
+def pnmTextScanReader (maxv sl : Nat) : ScanReader Bytes Bytes :=
+  { read := fun _ s => (((pnmTextRow sl s).1).map (pnmTextSample maxv), (pnmTextRow sl s).2)
+    skip := fun _ s => pnmSkipTextRow sl s }
+
+/-- bmp scanline_reader (24 / 32 bit): `read` seeks to the row's offset (the stream position is irrelevant), `skip` does nothing -/
+def bmpScanReader (file : Bytes) (info : BmpInfo) : ScanReader Nat Bytes :=
+  { read := fun pos _ => (bmpScanRow file info pos, bmpGetOffset info (bmpPitch info) pos + bmpPitch info), skip := fun _ p => p }
+
+/-- targa scanline_reader (raw, bottom-up): `read` seeks to the row's offset, `skip` seeks forward by one scanline -/
+def tgaScanReader (file : Bytes) (info : TgaInfo) : ScanReader Nat Bytes :=
+  let sl := info.width * (info.bpp / 8)
+  { read := fun pos _ => (tgaScanRow file info pos, info.offset + (info.height - 1 - pos) * sl + sl), skip := fun _ p => p + sl }
+
 /-! ## conversion policy: read_and_convert applies color_convert per pixel (default_color_converter, 8-bit channels)
 
   pixels as channel bytes in colour-space order: gray [v], rgb [r,g,b], rgba [r,g,b,a] -/
